@@ -425,6 +425,9 @@ func kvGen(ctx *Ctx, n int, redisOK bool, keys []string) []string {
 	r := ctx.Rnd
 	vals := []string{"x", "y", "-", "zz"}
 	pats := []string{"*", "a*", "?", "a?", "b", "*b", "a*b", "??", "zz*", "a", "ab", "zz/1"}
+	if len(keys) > 0 && keys[0] == "a/b" {
+		pats = []string{"*", "a*", "a/*", "*b", "a/b", "a//b", "a/b/", "a/?/b", "a/b?", "*/"}
+	}
 	if len(keys) > 0 && keys[0] == "a*" {
 		// escape alphabet: keys that contain wildcard characters / a backslash, patterns with `\x` escapes
 		pats = []string{"*", "a*", "a\\*", "a\\?b", "a?b", "a\\\\b", "\\ab", "a\\b", "a\\**", "ab", "a\\*b", "?\\*"}
@@ -584,6 +587,12 @@ func runKv(ctx *Ctx, kind string) {
 	}
 	for c := 0; c < n; c++ {
 		kvRunCase(ctx, kind, "", kvGen(ctx, ctx.Rnd.Range(5, 60), true, keys))
+	}
+	// 4c. keys that differ only in slashes / dot segments INSIDE or at the end (they are different keys: nothing
+	// may normalise them away)
+	pathKeys := []string{"a/b", "a//b", "a/b/", "a/./b"}
+	for c := 0; c < n/4; c++ {
+		kvRunCase(ctx, kind, "", kvGen(ctx, ctx.Rnd.Range(5, 40), true, pathKeys))
 	}
 	// 4b. keys with wildcard characters / a backslash in them and patterns with escapes (`\*`, `\?`, `\\`, `\a`)
 	escKeys := []string{"a*", "a?b", "a\\b", "ab"}
